@@ -9,6 +9,9 @@
 (*   StopWS / queries take the write / read lock;                          *)
 (*   the plotter receives from the channel only when its queue is empty    *)
 (*           and it is idle; step 1 and step 3 take the write lock.        *)
+(*   StopWS / RemoveWS / DeleteWS purge the plotter's queue from the       *)
+(*           caller's goroutine (under the write lock; the plotter's test  *)
+(*           and pop of the queue take no state lock).                     *)
 (* Go's RWMutex blocks new readers once a writer waits.                    *)
 (* TLC looks for states in which a thread can never proceed.  Its          *)
 (* counterexamples are candidate schedules only: each is replayed on the   *)
@@ -17,7 +20,9 @@
 (***************************************************************************)
 EXTENDS Naturals, Sequences, FiniteSets, TLC
 
-CONSTANTS Threads, ChanCap, MaxReq     \* MaxReq: requests each thread issues
+CONSTANTS Threads, ChanCap, MaxReq,    \* MaxReq: requests each thread issues
+          PopRule                      \* "unchecked": the plotter pops after an Empty() test made earlier (pinned code);
+                                       \* "checked": the pop itself tests for emptiness under the queue's mutex (repaired)
 
 VARIABLES readers,      \* threads holding the read lock
           writer,       \* thread holding the write lock, or "none"
@@ -61,8 +66,17 @@ Query(t)    == /\ tpc[t] = "idle" /\ left[t] > 0 /\ CanRead(t)
 \* ---- plotter
 PRecv  == /\ ppc = "idle" /\ queue = 0 /\ chan > 0
           /\ queue' = chan /\ chan' = 0 /\ UNCHANGED <<readers, writer, wwait, ppc, tpc, left>>
-PPop   == /\ ppc = "idle" /\ queue > 0 /\ queue' = queue - 1 /\ ppc' = "step1"
+\* the plotter's loop tests `!queue.Empty()` and pops in a later step; a purge may come in between
+PCheck == /\ ppc = "idle" /\ queue > 0 /\ ppc' = "nonempty"
+          /\ UNCHANGED <<readers, writer, wwait, chan, queue, tpc, left>>
+PPop   == /\ ppc = "nonempty"
+          /\ IF queue > 0 THEN queue' = queue - 1 /\ ppc' = "step1"
+             ELSE queue' = queue /\ ppc' = (IF PopRule = "checked" THEN "idle" ELSE "panic")     \* PopItem on an empty prque
           /\ UNCHANGED <<readers, writer, wwait, chan, tpc, left>>
+\* StopWS / RemoveWS / DeleteWS: write lock, purge the queue, unlock (one step once the lock is free)
+Purge(t) == /\ tpc[t] = "idle" /\ left[t] > 0 /\ t \notin wwait /\ CanWrite(t) /\ wwait = {}
+            /\ queue' = 0 /\ left' = [left EXCEPT ![t] = @ - 1]
+            /\ UNCHANGED <<readers, writer, wwait, chan, ppc, tpc>>
 PWant(pc) == /\ ppc = pc /\ Plotter \notin wwait /\ writer # Plotter
              /\ wwait' = wwait \cup {Plotter} /\ UNCHANGED <<readers, writer, chan, queue, ppc, tpc, left>>
 PStep1 == /\ ppc = "step1" /\ Plotter \in wwait /\ CanWrite(Plotter)
@@ -73,8 +87,8 @@ PStep3 == /\ ppc = "step3" /\ Plotter \in wwait /\ CanWrite(Plotter)
           /\ wwait' = wwait \ {Plotter} /\ ppc' = "idle"
           /\ UNCHANGED <<readers, writer, chan, queue, tpc, left>>
 
-Next == \/ \E t \in Threads : PlotLock(t) \/ PlotSend(t) \/ MineWant(t) \/ MineLock(t) \/ MineSend(t) \/ Query(t)
-        \/ PRecv \/ PPop \/ PWant("step1") \/ PStep1 \/ PPlotEnd \/ PWant("step3") \/ PStep3
+Next == \/ \E t \in Threads : PlotLock(t) \/ PlotSend(t) \/ MineWant(t) \/ MineLock(t) \/ MineSend(t) \/ Query(t) \/ Purge(t)
+        \/ PRecv \/ PCheck \/ PPop \/ PWant("step1") \/ PStep1 \/ PPlotEnd \/ PWant("step3") \/ PStep3
 Spec == Init /\ [][Next]_vars
 
 AllDone == \A t \in Threads : tpc[t] = "idle" /\ left[t] = 0 /\ t \notin wwait
@@ -83,7 +97,10 @@ Quiet   == AllDone /\ ppc = "idle" /\ chan = 0 /\ queue = 0
 \* before it will ever receive again
 KnownWedge == \E t \in Threads : tpc[t] \in {"plot_locked", "mine_locked"} /\ chan = ChanCap
 \* no thread is ever stuck for good - except in the known wedge
-NoWedge == (~ENABLED Next) => (Quiet \/ KnownWedge)
+NoWedge == (~ENABLED Next) => (Quiet \/ KnownWedge \/ ppc = "panic")
+\* the plotter never pops from a queue a caller has just emptied (fixed by the repair recorded as
+\* F-C13-plotter-pops-emptied-queue; with PopRule = "unchecked" TLC produces the schedule)
+NoPanic == ppc # "panic"
 \* the known wedge is reachable (the model is not vacuous about it)
 WedgeUnreachable == ~(KnownWedge /\ ~ENABLED Next)
 =============================================================================
